@@ -3311,7 +3311,8 @@ def get_quantizer(identifier):
     return None
   if isinstance(identifier, dict):
     return deserialize_keras_object(
-        identifier, module_objects=globals(), printable_module_name="quantizer")
+        identifier, module_objects=globals(), custom_objects=globals(),
+        printable_module_name="quantizer")
   elif isinstance(identifier, six.string_types):
     return safe_eval(identifier, globals())
   elif callable(identifier):
